@@ -433,6 +433,15 @@ func FamilyBoot(tier string) []*Scenario {
 		}
 		out = append(out, &Scenario{Family: "F-boot", Name: "boot-many-" + v.name, Plans: plans, BootStates: v.states, BootAgeSec: 5, MaxLastUpdateSec: 600, MaxTicks: 4})
 	}
+	// blocks with entrance and exit delays (short and far longer than the maximum): what counts is the age of the last
+	// recorded activity alone, whatever the definition of the plan says about waiting
+	delays := PlanSpec{Blocks: []BlockSpec{{Seqs: okSeqs(2, 1), Conc: 2, EntDel: 3, ExtDel: 20}, {Seqs: okSeqs(1, 1), EntDel: 1, ExtDel: 500}}}
+	for _, age := range []int{11, 25} { // stale ages only: a resumed plan would sit in its delays beyond the scenario's horizon
+		for _, norec := range []bool{false, true} {
+			out = append(out, &Scenario{Family: "F-boot", Name: fmt.Sprintf("boot-delays-running-max10-age%d-norec%v", age, norec), Plans: []PlanSpec{delays},
+				BootStates: []string{"running"}, BootAgeSec: age, MaxLastUpdateSec: 10, NoRecovery: norec, MaxTicks: 10})
+		}
+	}
 	return out
 }
 
